@@ -5,10 +5,17 @@ HDR = r'''#include "hv.h"
 using namespace ctpg; using namespace ctpg::ftors;
 namespace fx {
 unsigned poison_hits, copies, moves;
-// every argument that must not be read is a poison object: any conversion of it is counted
+// every argument that must not be read is a poison object: any conversion, copy or move of it is counted; they are passed as lvalues (odd positions) and xvalues (even positions)
+template<typename T> struct is_ign : std::false_type {};
+template<std::size_t I> struct is_ign<ctpg::ftors::ignore<I>> : std::true_type {};
 struct poison {
-    template<typename T> operator T() const { ++poison_hits; return T{}; }
+    poison() = default;
+    poison(const poison&) { ++poison_hits; }      // taking a skipped argument by value copies it (lvalue) ...
+    poison(poison&&) { ++poison_hits; }           // ... or moves from it (rvalue): both read the argument
+    // (no conversion to the library's own placeholder type: taking a skipped argument must go through ignore's constructor, whose parameter passing is what is observed)
+    template<typename T, typename = std::enable_if_t<!is_ign<T>::value>> operator T() const { ++poison_hits; return T{}; }
 };
+static poison pz[10];
 // the selected argument: a tagged value.  copy-constructing it is counted; cat: 0 copyable lvalue, 1 copyable rvalue, 2 move-only rvalue
 struct tagged {
     unsigned v = 0;
@@ -44,7 +51,7 @@ def gen():
     fns = []; kinds = []
     def args(n, sel):
         """argument list of arity n with named expressions at 1-based positions in sel (dict pos -> expr), poison elsewhere"""
-        return ', '.join(sel.get(i, 'poison{}') for i in range(1, n + 1))
+        return ', '.join(sel.get(i, ('pz[%d]' % i) if i % 2 else ('std::move(pz[%d])' % i)) for i in range(1, n + 1))
     # _eN for every arity, three value categories
     for N in range(1, 10):
         for k in range(N, 10):
